@@ -246,6 +246,11 @@ type Scenario struct {
 	Sweepers   []int
 	Crash      []int
 	MaxCrash   int
+	// Echo: nodes that may receive, from a peer, state about THEMSELVES at
+	// versions above their own (the peer remembers an earlier incarnation
+	// with the same id that never left)
+	Echo    []int
+	MaxEcho int
 	Leavers    []int
 	LeaveMasks bool // explore every subset of peers failing to receive the leave
 	// MaxInflight bounds the number of datagrams in flight; initiations are
@@ -293,6 +298,7 @@ type World struct {
 	suspUsed   int
 	sweepUsed  int
 	crashUsed  int
+	echoUsed   int
 	leftCalled []bool
 
 	// oracle bookkeeping
@@ -402,7 +408,7 @@ func NewWorld(sc *Scenario, st *Stats) *World {
 	for i := range w.opsUsed {
 		w.opsUsed[i] = 0
 	}
-	w.digUsed, w.dupUsed, w.joinUsed, w.suspUsed, w.sweepUsed, w.crashUsed = 0, 0, 0, 0, 0, 0
+	w.digUsed, w.dupUsed, w.joinUsed, w.suspUsed, w.sweepUsed, w.crashUsed, w.echoUsed = 0, 0, 0, 0, 0, 0, 0
 	return w
 }
 
